@@ -318,6 +318,9 @@ var c20RichWorlds = []struct {
 	build func(t *testing.T, g *rng) *c20Rich
 }{
 	{"swap", c20WorldSwap},
+	{"lend", c20WorldLend},
+	{"fees", c20WorldFees},
+	{"esm", c20WorldEsm},
 }
 
 func TestC20Rich(t *testing.T) {
